@@ -35,6 +35,9 @@ def bad_events(I):
 def run(ctx):
     from .. import wrappers
     wrappers.check(ctx, ["trigger_key_continue"])     # the outer Machine methods the callers use are the routines analysed below
+    # the byte whose value decides a stop is the byte read from the bus by the fetch word (pipeline agreement, shared with C01)
+    from .. import pipeline
+    pipeline.check(ctx, prefix="cpu-pipeline")
     p = ctx.p
     chk = ctx.chk
     I = absint.Interp(p)
